@@ -203,6 +203,24 @@ def mem_snapshot(doc):
     return snap
 
 
+SAVE_KINDS = (("zip", False), ("zip", True), ("folder", False), ("folder", None), ("xml", False), ("xml", True))
+PREPARATIONS = ("untouched", "body-read", "parts-serialized", "meta-edited-back")
+DEEP_SEEDS = {("generated", "quick"), ("generated", "thorough"), ("file", "example.odt"), ("template", "text"), ("file", "simple_table.ods"), ("file", "frame_image.odp")}
+
+
+def prepare(doc, how):
+    """What the user did before saving, leaving the content as it is."""
+    if how == "body-read":
+        doc.body.get_paragraphs()
+    elif how == "parts-serialized":
+        for name in ("content", "styles", "settings", "meta"):
+            doc.get_part(name).serialize()
+    elif how == "meta-edited-back":
+        t = doc.meta.title
+        doc.meta.title = "x"
+        doc.meta.title = t
+
+
 def work(seed):
     fails = []
     nev = 0
@@ -294,6 +312,46 @@ def work(seed):
                 strip_generator(b)
                 if c14n(a) != c14n(b):
                     fail(f"save-sequence{[f'{p}:{q}' for p, q in seq]}", "sequence", "same-content-as-direct-plain-save", n, "differs", "earlier-save-changed-later-save", part=n)
+    if tuple(seed) in DEEP_SEEDS:
+        # every sequence of one or two saves (any packaging, pretty or not) after every preparation:
+        # the plain zip written last equals the plain zip of the document saved directly
+        import itertools
+
+        for how in PREPARATIONS:
+            try:
+                d0 = open_seed(seed)
+                prepare(d0, how)
+                ref2 = save_variant(d0, "zip", False, base)
+            except Exception as e:
+                fail(f"prepared[{how}]", "sequence", "raises", "no exception", type(e).__name__, f"raises:{type(e).__name__}")
+                continue
+            for n_pre in ((1,) if tuple(seed) == ("generated", "quick") else (1, 2)):
+                for seq in itertools.product(SAVE_KINDS, repeat=n_pre):
+                    if how == "untouched" and n_pre == 1 and seq[0] == ("zip", False):
+                        continue
+                    nev += 1
+                    label = f"save-sequence[{how}]" + str([f"{p}:{q}" for p, q in seq] + ["zip:False"])
+                    try:
+                        doc = open_seed(seed)
+                        prepare(doc, how)
+                        for packaging, pretty in seq:
+                            if pretty is None:
+                                target = os.path.join(base, "seq")
+                                doc.save(target, packaging="folder")
+                            else:
+                                save_variant(doc, packaging, pretty, base)
+                        last = save_variant(doc, "zip", False, base)
+                    except Exception as e:
+                        fail(label, "sequence", "raises", "no exception", type(e).__name__, f"raises:{type(e).__name__}")
+                        continue
+                    for n in XMLPARTS:
+                        if n in ref2 and n in last:
+                            a, b = copy.deepcopy(ref2[n]), copy.deepcopy(last[n])
+                            strip_generator(a)
+                            strip_generator(b)
+                            if c14n(a) != c14n(b):
+                                fail(label, "sequence", "same-content-as-direct-plain-save", n, "differs", "earlier-save-changed-later-save", part=n)
+                                break
     return nev, fails, classes
 
 
@@ -327,7 +385,7 @@ def run(prop, tier, vseed):
             "evaluations": nev,
             "distinct_nontrivial": len(adj),
             "generated_paragraphs": count,
-            "rule": "every seed document (generated adjacency document, 4 templates, every sample) x {zip pretty, folder plain, folder pretty, flat xml plain, flat xml pretty} compared with the plain zip save of the same state (per-paragraph collapsed text, element skeleton, attributes), in-memory parts before/after each save, and 5 save sequences of length <= 3 ending in a plain zip; distinct_nontrivial = distinct adjacency classes of the generated paragraphs",
+            "rule": "every seed document (generated adjacency document, 4 templates, every sample) x {zip pretty, folder plain, folder pretty, flat xml plain, flat xml pretty} compared with the plain zip save of the same state (per-paragraph collapsed text, element skeleton, attributes), in-memory parts before/after each save, 5 save sequences of length <= 3 ending in a plain zip on every seed, and on 5 seeds every sequence of one or two saves over {zip, folder, flat xml} x {plain, pretty / default} after each of 4 preparations (untouched, body read, parts serialised without .root, metadata edited and restored) followed by a plain zip; distinct_nontrivial = distinct adjacency classes of the generated paragraphs",
             "samples": [{"seed": ["generated", tier], "configuration": ["zip", True]}],
             "exhaustive": True,
         }
